@@ -17,7 +17,7 @@ LEVEL_TEXT = ('seeded exploration of interleavings of per-logical-file clients (
               'each logical file written alone in a fresh fork, decoded inventories and rows per logical file')
 LEVEL_NOTE = ('trusted: sim/rp66.py, projection by logical file; both sides of the additivity relation run the same code; '
               'evidence counts distinct schedule strings')
-TIERS = {'quick': {'cases': 900, 'wall': 45}, 'thorough': {'cases': 200000, 'wall': 840}}
+TIERS = {'quick': {'cases': 2200, 'wall': 45}, 'thorough': {'cases': 200000, 'wall': 840}}
 RULE = ('case = seeded interleaving of 2-3 logical-file clients on one DLISFile (or one logical file with several frames); '
         'non-trivial = >= 2 logical files whose add_* calls alternate at least once; distinct = case digest; '
         'distinct interleavings = distinct schedule strings')
